@@ -8,6 +8,11 @@ NS = json.loads((lib.REPO / "src/wikitextprocessor/data/en/namespaces.json").rea
 NS_BY_ID = {v["id"]: (k, v) for k, v in NS.items()}
 USED_NS = [0, 10, 828, 100, 4]
 BASES = ["Foo", "foo", "Foo bar", "Bar/x", "Xü y", "q", "R:Webster", "a:b c"]
+# both case variants of titles whose first letter is outside ASCII - among them letters whose upper-case form has the
+# GREATER code point (ÿ/Ÿ, ɐ/Ɐ, ƿ/Ƿ, µ/Μ), the smaller one (é/É, я/Я) and a title-case digraph; the model's case mapping is
+# ASCII only, so these sequences are decided by the oracle alone
+BASES_NA = ["\u00ffx", "\u0178x", "\u0250 b", "\u2c6f b", "\u01bfa", "\u01f7a", "\u00b5m", "\u039cm", "\u00e9t", "\u00c9t",
+            "\u044fz", "\u042fz", "\u01c6a", "\u01c4a", "Foo", "foo"]
 
 
 def ns_table_coq():
@@ -81,7 +86,7 @@ class Oracle:
         return None
 
 
-def gen_case(rng, length):
+def gen_case(rng, length, BASES=BASES):
     ops, expect, meta = [], [], []
     orc = Oracle()
     nbody = itertools.count()
@@ -179,7 +184,8 @@ def classify(case, i, got, want):
 def run(run):
     run.rule = ("operation sequences over {add, overwrite, redirect-add, get (with/without no_redirect), exists, body, "
                 "resolve, commit, reopen} on 6 base titles x 5 namespaces x 7 spelling variants; length 1-40 random, "
-                "plus short sequences (length<=4) sampled densely; non-trivial = contains an add followed by a lookup "
+                "plus short sequences (length<=4) sampled densely; plus sequences over 16 titles whose first letter is outside ASCII in both "
+                "cases (decided by the oracle only); non-trivial = contains an add followed by a lookup "
                 "of the same base title; distinct by JSON hash")
     run.trusted = [
         "Coq 8.16.1 kernel; vm_compute to evaluate Model.Store on the operation sequences",
@@ -196,6 +202,9 @@ def run(run):
     for i in range(n):
         ln = run.rng.randint(1, 4) if i % 3 == 0 else run.rng.randint(5, 40)
         cases.append(gen_case(run.rng, ln))
+    nmodel = len(cases)
+    for i in range(max(150, n // 5)):
+        cases.append(gen_case(run.rng, run.rng.randint(2, 25), BASES_NA))
     res = lib.run_impl("c10", [{"ops": c["ops"]} for c in cases])
     coq_cases, idx = [], []
     for i, (c, r) in enumerate(zip(cases, res)):
@@ -216,6 +225,8 @@ def run(run):
                                      "op %d %r returned %r, latest version is %r" % (j, c["ops"][j], got, want),
                                      {"ops": c["ops"][:j + 1]})
                 break
+        if i >= nmodel:
+            continue          # first letters outside ASCII: outside the model's case mapping
         coq_cases.append("(%s, %s)" % (clist(c["ops"], coq_op, "sop"),
                                        clist(zip(c["ops"], r["outs"]), lambda p: coq_out(*p), "sout")))
         idx.append(i)
